@@ -815,6 +815,12 @@ impl ElementRaw {
             src_parent_locked.content.remove(idx);
         }
 
+        // the moved elements take on the file membership of their new parent; a local file set from the old location
+        // could name files that do not contain the new parent
+        for (_, elem) in move_element.elements_dfs() {
+            elem.0.write().file_membership.clear();
+        }
+
         // set the parent of the new element to the current element
         let mut move_element_locked = move_element.0.write();
         move_element_locked.parent = ElementOrModel::Element(self_weak);
@@ -935,6 +941,11 @@ impl ElementRaw {
         // delete all reference origin info for elements under move_element
         for (path, elem) in &original_refs {
             model_src.remove_reference_origin(path, elem.downgrade());
+        }
+
+        // the moved elements take on the file membership of their new parent; file handles of the source model are meaningless here
+        for (_, elem) in move_element.elements_dfs() {
+            elem.0.write().file_membership.clear();
         }
 
         // set the parent of the new element to the current element
